@@ -83,7 +83,8 @@ def gen_root(rng, depth, subs, max_arity=4):
     k = rng.random()
     body = gen_tree(rng, depth, subs, True, max_arity)
     if k < 0.2:
-        return SubRecipe(body, tuple(gen_svs(rng) for _ in range(rng.randint(2, 4))))
+        # (the flag that hides a single name has no meaning for a list of outputs: the list is drawn whatever it says)
+        return SubRecipe(body, tuple(gen_svs(rng) for _ in range(rng.randint(2, 4))), rng.random() < 0.6)
     if k < 0.5 and not isinstance(body, SubRecipe):
         return SubRecipe(body, (gen_svs(rng),), rng.random() < 0.7)
     return body
